@@ -20,7 +20,7 @@ import (
 )
 
 func init() {
-	report.Register("C05", report.Check{Level: "model_checking", QuickBudget: 120 * time.Second, ThoroughBudget: 25 * time.Minute, Run: run})
+	report.Register("C05", report.Check{Level: "model_checking", QuickBudget: 240 * time.Second, ThoroughBudget: 25 * time.Minute, Run: run})
 	explore.Register("C05.closure", func(p string) explore.Harness {
 		return func(x *explore.X) {
 			parts := strings.SplitN(p, "\x1f", 2)
